@@ -13,8 +13,9 @@ import (
 const (
 	limit      = 100 << 20         // the per-message limit of the protocol implementation
 	allocBound = limit + (1 << 20) // what one decode may allocate on the strength of a prefix
-	freshAbove = uint64(256 << 20) // a worker that saw a bigger allocation restarts (fresh address space)
-	hardCapAS  = uint64(6) << 30   // RLIMIT_AS of a worker
+	restartAt  = uint64(18) << 30  // a worker that has allocated this much in total leaves and is restarted
+	rssGuard   = uint64(4) << 30   // ... or whose resident set grew to this
+	hardCapAS  = uint64(24) << 30  // RLIMIT_AS of a worker
 	maxRecv    = 16                // RecvMsg calls per case (bodies hold <= 3 data frames)
 )
 
